@@ -519,7 +519,7 @@ def toy : Http where
   parseScheme v := if v = [104, 116, 116, 112] ∨ v = sHttps then some v else none
   parseAuthority v :=
     if !v.isEmpty && v.all (fun b => (97 ≤ b && b ≤ 122) || (48 ≤ b && b ≤ 58) || b == 46) then some v else none
-  parsePath v := if v.head? = some 47 then some v else none
+  parsePath v := if v.head? = some 47 ∧ 35 ∉ v then some v else none
   uriBuild s a p :=
     if !a.isEmpty && a.all (fun b => (97 ≤ b && b ≤ 122) || (48 ≤ b && b ≤ 58) || b == 46) then
       (if s.isSome = p.isSome then some { scheme := s, authority := some a, path := p } else none)
@@ -623,59 +623,31 @@ theorem C12_protocols_are_iana_tokens : H3.Gen.Headers.protocols = protocolToken
 example : [0x68, 0x32, 0x63] ∉ protocolTokens := by decide                                   -- h2c
 example : [0x77, 0x65, 0x62, 0x73, 0x6f, 0x63, 0x6b, 0x65, 0x74] ∈ protocolTokens := by decide   -- websocket
 
-/-- What the `http` crate would have to guarantee for h3's delegation to be complete with respect to
-    the crate-independent necessary conditions of R-12c (`SyntaxOk`).  The real crate does NOT
-    satisfy the first three (finding D-12g; `lax` below behaves as it does). -/
+/-- What h3 still delegates of the crate-independent necessary conditions of R-12c (`SyntaxOk`) after
+    the D-12g fix: only "`:path` is not empty" (`PathAndQuery::from_str("")` fails).  The scheme grammar,
+    the two authority conditions and "no `#` in the path" are h3's own check (`pseudo_value_syntax`,
+    model `pseudoValueSyntax`) and need no law.  Checked against the real crate on every verdict table
+    (`H3.Drv.C12.lawsOk`). -/
 structure HttpSyntaxLaws (H : Http) : Prop where
-  scheme_syntax : ∀ v, (H.parseScheme v).isSome → SchemeSyntax v
-  authority_syntax : ∀ v, (H.parseAuthority v).isSome → AuthoritySyntax v
-  path_syntax : ∀ v, (H.parsePath v).isSome → PathSyntax v
   path_nonempty : H.parsePath [] = none
 
-/-- FULL STATEMENT (false for the real `http` crate, see `C12_accepted_request_syntax_fails`):
-    `∀ H, HttpLaws H → ∀ fs r, recvRequest H fs = .ok r → WellFormedRequestStrict H fs` — a request is
-    handed over only if its `:scheme` is an RFC 3986 scheme, its `:authority` has at most one `@` and a
-    numeric port, its `:path` has no `#` and is not empty under `http`/`https`.
-    PROVED PART: it holds for every `H` whose three parsers refuse what these conditions exclude
-    (`HttpSyntaxLaws`), i.e. h3 adds no leniency of its own; MISSING: h3 has no check of its own, so with
-    the real parsers (which accept an empty `:scheme`, `1http`, `a@b@c`, `a.com:x`, `/a#frag`) the
-    full statement fails. -/
-theorem C12_accepted_request_syntax_partial (H : Http) (L : HttpLaws H) (S : HttpSyntaxLaws H)
+/-- **A request is handed over only if its `:scheme` is an RFC 3986 scheme, its `:authority` has at most
+    one `@` and a numeric port, its `:path` has no `#` and is not empty under `http`/`https`** (reading
+    R-12c; finding D-12g, repaired): `∀ H` with `HttpLaws` and `PathAndQuery::from_str("") = Err`, an
+    accepted request satisfies `WellFormedRequestStrict`.  The first three classes hold for EVERY `H`,
+    whatever its three parsers accept (`tryFrom_syntax`: `Field::parse` checks them itself before it
+    delegates); only the empty path is still the crate's refusal.  Before the fix this was
+    `C12_accepted_request_syntax_partial` (for those `H` whose parsers refuse what the conditions
+    exclude — the real crate does not, see `C12_syntax_refusal_is_h3s_own`). -/
+theorem C12_accepted_request_syntax (H : Http) (L : HttpLaws H) (S : HttpSyntaxLaws H)
     (fs : List FieldLine) (r : RequestParts) (h : recvRequest H fs = .ok r) :
     WellFormedRequestStrict H fs := by
   have hw := (C12_accepted_request_wellformed H L fs r h).1
   refine ⟨hw, ?_, ?_⟩
-  · intro f hf
-    have hok := hw.1 f hf
-    obtain ⟨_, hok⟩ := hok
-    refine ⟨?_, ?_, ?_⟩
-    · intro e
-      rw [e, if_pos (by decide : IsPseudo nScheme)] at hok
-      rcases hok with ⟨e', _⟩ | ⟨_, hp⟩ | ⟨e', _⟩ | ⟨e', _⟩ | ⟨e', _⟩ | ⟨e', _⟩
-      · exact absurd e' (by decide)
-      · exact S.scheme_syntax _ hp
-      · exact absurd e' (by decide)
-      · exact absurd e' (by decide)
-      · exact absurd e' (by decide)
-      · exact absurd e' (by decide)
-    · intro e
-      rw [e, if_pos (by decide : IsPseudo nAuthority)] at hok
-      rcases hok with ⟨e', _⟩ | ⟨e', _⟩ | ⟨_, hp⟩ | ⟨e', _⟩ | ⟨e', _⟩ | ⟨e', _⟩
-      · exact absurd e' (by decide)
-      · exact absurd e' (by decide)
-      · exact S.authority_syntax _ hp
-      · exact absurd e' (by decide)
-      · exact absurd e' (by decide)
-      · exact absurd e' (by decide)
-    · intro e
-      rw [e, if_pos (by decide : IsPseudo nPath)] at hok
-      rcases hok with ⟨e', _⟩ | ⟨e', _⟩ | ⟨e', _⟩ | ⟨_, hp⟩ | ⟨e', _⟩ | ⟨e', _⟩
-      · exact absurd e' (by decide)
-      · exact absurd e' (by decide)
-      · exact absurd e' (by decide)
-      · exact S.path_syntax _ hp
-      · exact absurd e' (by decide)
-      · exact absurd e' (by decide)
+  · cases ht : tryFrom H fs with
+    | ok hd => exact tryFrom_syntax ht
+    | err e => simp [recvRequest, ht, Res.bind] at h
+    | panic => simp [recvRequest, ht, Res.bind] at h
   · intro _ _ p hp e
     subst e
     have hf : (nPath, []) ∈ fs := mem_valuesOf.mp hp
@@ -691,13 +663,13 @@ theorem C12_accepted_request_syntax_partial (H : Http) (L : HttpLaws H) (S : Htt
 
 /-- An `Http` that answers as `http` 1.x does on the byte strings used below (checked against the real
     crate by the verdict tables of the correspondence run: `corpus/C12/d12g_syntax.txt`): `Scheme` checks
-    only the byte set (letters, digits, `+`, `-`, `.`; up to 64 bytes; the empty string passes),
+    only the byte set (letters, digits, `+`, `-`, `.` **and `~`**, `SCHEME_CHARS`; up to 64 bytes; the empty string passes),
     `Authority` a byte set and at most one `:` outside brackets (any number of `@`, anything after the
     `:`), `PathAndQuery` refuses the empty string, wants `/`, `?`, `#` or `*` first and DROPS everything
     from the first `#` on (an empty rest prints as `/`); `Uri::builder` wants scheme and path both or
     neither. -/
 def laxSchemeByte (b : Nat) : Bool :=
-  (65 ≤ b && b ≤ 90) || (97 ≤ b && b ≤ 122) || (48 ≤ b && b ≤ 57) || b == 0x2b || b == 0x2d || b == 0x2e
+  (65 ≤ b && b ≤ 90) || (97 ≤ b && b ≤ 122) || (48 ≤ b && b ≤ 57) || b == 0x2b || b == 0x2d || b == 0x2e || b == 0x7e
 def laxAuthByte (b : Nat) : Bool :=
   (97 ≤ b && b ≤ 122) || (48 ≤ b && b ≤ 57) || b == 0x2e || b == 0x2d || b == 0x3a || b == 0x40
 def laxAuthOk (v : Bytes) : Bool := !v.isEmpty && v.all laxAuthByte && decide ((v.filter (· == 0x3a)).length ≤ 1)
@@ -730,26 +702,43 @@ def isOk {α : Type} : Res α → Bool
   | .ok _ => true
   | _ => false
 
-/-- **D-12g, the negation of the full statement** on an `Http` that answers as the real crate does:
-    `:scheme: 1http`, an empty `:scheme`, `:authority: a@b@c`, `:authority: a.com:x` and
-    `:path: /a#frag` (handed over as `/a`, a value the peer never sent) are all accepted by the model
-    (and by the real code, KNOWN-FINDING lines of the run), none satisfies `SyntaxOk`. -/
-theorem C12_accepted_request_syntax_fails :
-    HttpLaws lax ∧
-    (∀ fs ∈ [[(nMethod, GET), (nScheme, h1http), (nAuthority, aCom), (nPath, slash)],
-             [(nMethod, GET), (nScheme, []), (nAuthority, aCom), (nPath, slash)],
-             [(nMethod, GET), (nScheme, sHttps), (nAuthority, [97, 64, 98, 64, 99]), (nPath, slash)],
-             [(nMethod, GET), (nScheme, sHttps), (nAuthority, aCom ++ [58, 120]), (nPath, slash)],
-             [(nMethod, GET), (nScheme, sHttps), (nAuthority, aCom), (nPath, [47, 97, 35, 102])]],
-      isOk (recvRequest lax fs) = true ∧ WellFormedRequest lax fs ∧ ¬ SyntaxOk fs) ∧
-    (recvRequest lax [(nMethod, GET), (nScheme, sHttps), (nAuthority, aCom), (nPath, [47, 97, 35, 102])]).bind
-      (fun r => .ok r.uri.path) = .ok (some [47, 97]) := by
-  refine ⟨lax_laws, ?_, ?_⟩
+theorem lax_syntax_laws : HttpSyntaxLaws lax where
+  path_nonempty := by decide
+
+/-- the six witness sections of D-12g: `:scheme: 1http`, an empty `:scheme`, `:scheme: h~p` (`~` is in
+    `http`'s `SCHEME_CHARS`), `:authority: a@b@c`, `:authority: a.com:x`, `:path: /a#f` -/
+def d12gWitnesses : List (List FieldLine) :=
+  [[(nMethod, GET), (nScheme, h1http), (nAuthority, aCom), (nPath, slash)],
+   [(nMethod, GET), (nScheme, []), (nAuthority, aCom), (nPath, slash)],
+   [(nMethod, GET), (nScheme, [0x68, 0x7e, 0x70]), (nAuthority, aCom), (nPath, slash)],
+   [(nMethod, GET), (nScheme, sHttps), (nAuthority, [97, 64, 98, 64, 99]), (nPath, slash)],
+   [(nMethod, GET), (nScheme, sHttps), (nAuthority, aCom ++ [58, 120]), (nPath, slash)],
+   [(nMethod, GET), (nScheme, sHttps), (nAuthority, aCom), (nPath, [47, 97, 35, 102])]]
+
+/-- `Field.parse` as it was BEFORE the D-12g fix (the shape the translator answers
+    `pseudoSyntaxChecked = false` for): a pseudo-header value goes to the `http` parser at once. -/
+def parseDelegating (H : Http) (n v : Bytes) : Option Bytes :=
+  if n = nScheme then H.parseScheme v else if n = nAuthority then H.parseAuthority v
+  else if n = nPath then H.parsePath v else some v
+
+/-- **D-12g: the refusal is h3's own, and was missing.**  On `lax`, an `Http` that answers as the real
+    crate does (byte-set checks only, `~` a scheme byte, the fragment dropped): every value of the six
+    witness sections is ACCEPTED by the crate's parser (so the code before the fix, which only
+    delegated, handed the sections over: they are `WellFormedRequest`, the oracle without `SyntaxOk`),
+    none satisfies `SyntaxOk`, the crate's `PathAndQuery` turns `/a#f` into `/a` — a value the peer never
+    sent —, and the model of the repaired code refuses each with `InvalidHeaderValue`. -/
+theorem C12_syntax_refusal_is_h3s_own :
+    HttpLaws lax ∧ HttpSyntaxLaws lax ∧
+    (∀ fs ∈ d12gWitnesses,
+      (∀ f ∈ fs, (parseDelegating lax f.1 f.2).isSome) ∧ WellFormedRequest lax fs ∧ ¬ SyntaxOk fs ∧
+      recvRequest lax fs = .err .invalidHeaderValue) ∧
+    lax.parsePath [47, 97, 35, 102] = some [47, 97] := by
+  refine ⟨lax_laws, lax_syntax_laws, ?_, ?_⟩
   · decide
   · decide
 
-/-- non-vacuity of the proved part: an `Http` that knows one scheme, one authority and one path
-    satisfies both sets of laws, and the request it accepts is strictly well-formed. -/
+/-- non-vacuity: an `Http` that knows one scheme, one authority and one path satisfies both sets of
+    laws, and the request it accepts is strictly well-formed (on `lax`: below, `laxReq`). -/
 def tiny : Http where
   parseScheme v := if v = sHttps then some v else none
   parseAuthority v := if v = aCom then some v else none
@@ -769,18 +758,6 @@ theorem tiny_laws : HttpLaws tiny where
     · cases h
 
 theorem tiny_syntax_laws : HttpSyntaxLaws tiny where
-  scheme_syntax := by
-    intro v h; simp only [tiny] at h; split at h
-    · rename_i hc; subst hc; decide
-    · cases h
-  authority_syntax := by
-    intro v h; simp only [tiny] at h; split at h
-    · rename_i hc; subst hc; decide
-    · cases h
-  path_syntax := by
-    intro v h; simp only [tiny] at h; split at h
-    · rename_i hc; subst hc; decide
-    · cases h
   path_nonempty := by decide
 
 example : isOk (recvRequest tiny [(nMethod, GET), (nScheme, sHttps), (nAuthority, aCom), (nPath, slash), ([120], [49])]) = true := by
@@ -788,7 +765,7 @@ example : isOk (recvRequest tiny [(nMethod, GET), (nScheme, sHttps), (nAuthority
 example (r : RequestParts)
     (h : recvRequest tiny [(nMethod, GET), (nScheme, sHttps), (nAuthority, aCom), (nPath, slash), ([120], [49])] = .ok r) :
     SyntaxOk [(nMethod, GET), (nScheme, sHttps), (nAuthority, aCom), (nPath, slash), ([120], [49])] :=
-  (C12_accepted_request_syntax_partial tiny tiny_laws tiny_syntax_laws _ r h).2
+  (C12_accepted_request_syntax tiny tiny_laws tiny_syntax_laws _ r h).2
 
 /-! ### the main theorems on the instance that answers as `http` does (`lax`)
 
@@ -804,6 +781,9 @@ example (r : RequestParts) (h : recvRequest lax laxReq = .ok r) :
     WellFormedRequest lax laxReq ∧ lastVal nMethod laxReq = some r.method :=
   let t := C12_accepted_request_wellformed lax lax_laws laxReq r h
   ⟨t.1, t.2.1⟩
+/-- `C12_accepted_request_syntax` on `lax` — whose parsers do NOT refuse what `SyntaxOk` excludes -/
+example (r : RequestParts) (h : recvRequest lax laxReq = .ok r) : WellFormedRequestStrict lax laxReq :=
+  C12_accepted_request_syntax lax lax_laws lax_syntax_laws laxReq r h
 /-- `C12_malformed_request_refused` on `lax`: `:authority: a.com` with `host: b.com`; a space in the
     authority (refused by the parser); an unknown pseudo-header field -/
 example : ¬ WellFormedRequest lax [(nMethod, GET), (nAuthority, aCom), (nHost, [98])] := by decide
